@@ -31,14 +31,16 @@ def raw_sizes(dims):
     return out
 
 
-def h_read_raw(data, dims):
+def h_read_raw(data, dims, strict=False):
     """Harness-side reader of the planar little-endian raw format: returns
-    {"Y": rows, ...} masked to the depth, and the number of bytes consumed."""
+    {"Y": rows, ...} masked to the depth, and the number of bytes consumed.
+    With ``strict`` the padding bits above the depth are NOT masked off (a file
+    written by the tools is documented to be zero padded)."""
     pos = 0
     pic = {}
     for comp in ("Y", "C1", "C2"):
         w, h, d, bps = raw_sizes(dims)[comp]
-        mask = (1 << d) - 1
+        mask = (1 << (8 * bps)) - 1 if strict else (1 << d) - 1
         rows = []
         for _y in range(h):
             row = []
@@ -244,7 +246,7 @@ class C25(ByteChanSpec):
                 return viol("C25/metadata-differs", "picture %d metadata %r != decoder output (vp=%r pcm=%r num=%r)" % (i, meta, want_vp, int(pcm), pic["pic_num"]))
             dims = h_dims(vp, pcm)
             raw = fs.get(rp)
-            got, used = h_read_raw(raw, dims)
+            got, used = h_read_raw(raw, dims, strict=True)
             if used != len(raw):
                 return viol("C25/raw-size", "picture %d raw file is %d bytes, format implies %d" % (i, len(raw), used))
             for comp in ("Y", "C1", "C2"):
